@@ -848,6 +848,11 @@ class _Unjellier:
             raise InsecureJelly("Module not allowed: %s" % modName)
         # XXX do I need an isFunctionAllowed?
         function = namedAny(fname)
+        if not isinstance(function, types.FunctionType):
+            raise InsecureJelly(
+                "function %r unjellied to something that isn't a function: %r"
+                % (fname, function)
+            )
         return function
 
     def _unjelly_persistent(self, rest):
